@@ -198,12 +198,14 @@ func (gen *Generator) convert(prFiles *protoregistry.Files, fd protoreflect.File
 				return xerrors.ErrorKV("option Scatter and Merger cannot be both set at one sheet",
 					xerrors.KeyModule, xerrors.ModuleConf, xerrors.KeyBookName, workbook.Name, xerrors.KeySheetName, worksheetName)
 			}
-			err := gen.processScatter(imp, sheetInfo, rewrittenWorkbookName, sheetName)
+			// NOTE: pass the recorded workbook name: the importers rewrite the subdir themselves.
+			err := gen.processScatter(imp, sheetInfo, workbook.Name, sheetName)
 			if err != nil {
 				return xerrors.WrapKV(err, xerrors.KeyModule, xerrors.ModuleConf, xerrors.KeyBookName, workbook.Name, xerrors.KeySheetName, worksheetName)
 			}
 		} else {
-			err := gen.processMerger(imp, sheetInfo, rewrittenWorkbookName, sheetName)
+			// NOTE: pass the recorded workbook name: the importers rewrite the subdir themselves.
+			err := gen.processMerger(imp, sheetInfo, workbook.Name, sheetName)
 			if err != nil {
 				return xerrors.WrapKV(err, xerrors.KeyModule, xerrors.ModuleConf, xerrors.KeyBookName, workbook.Name, xerrors.KeySheetName, worksheetName)
 			}
